@@ -42,6 +42,7 @@ def _trunc_int(v):
     return SI(k)
 
 
+EXACT_CONV = [False]      # True: %g/%e/%f tokens read back exactly (unit/layout checks, precision aside)
 SIGN_FORK = [True]       # False: numbers are registered signed, no fork on the sign (report readers)
 FMT_HOOK = [None]        # set by symx.decimal mode: (spec text, arg) -> object or None
 
@@ -199,7 +200,7 @@ def _token_value(k):
     if 'read' in t:
         return t['read']
     mag = t['mag']
-    if t['exact']:
+    if t['exact'] or EXACT_CONV[0]:
         t['read'] = mag
         return mag
     conv, p = t['conv'], t['prec']
